@@ -183,7 +183,18 @@ impl FolderMerge for Folder {
                                 None
                             };
 
-                        access_point.update_secret(id, meta, secret).await?;
+                        // The events are replayed on top of the local
+                        // changes so the secret may have been deleted
+                        // locally, an update that comes after the deletion
+                        // restores the secret like replaying the event log
+                        if access_point
+                            .update_secret(id, meta.clone(), secret.clone())
+                            .await?
+                            .is_none()
+                        {
+                            let row = SecretRow::new(*id, meta, secret);
+                            access_point.create_secret(&row).await?;
+                        }
 
                         #[cfg(feature = "search")]
                         if let (
